@@ -74,7 +74,7 @@ if ok:
     shutil.copy(demo_src, os.path.join(d, "demo.rs"))
     if os.path.isdir(project):
         shutil.copytree(project, os.path.join(d, "demo_project"), dirs_exist_ok=True, ignore=shutil.ignore_patterns("target", "Cargo.lock"))
-    meta["property"] = pid
+    meta["property"] = pid[:3]
     meta["verified_by_hand"] = {"where": "scratch worktree %s (removed afterwards)" % wt, "demo_on_clean_tree": "passes", "demo_with_patch": "fails",
                                 "crate_tests_with_patch": report["crate_tests_patched"], "demo_crate": crate, "features": features}
     json.dump(meta, open(os.path.join(d, "meta.json"), "w"), indent=1)
